@@ -11,12 +11,19 @@ Open Scope list_scope.
 Inductive seg :=
 | SLit (s : str)                          (* YAML skeleton text, written by the harness *)
 | STok (toks : list token) (obs : str)    (* a scalar generated from a token list; the value the loader returned *)
-| SRaw (raw obs : str).                   (* a scalar with arbitrary placements of $ { }; the value returned *)
+| SRaw (raw obs : str)                    (* a scalar with arbitrary placements of $ { }; the value returned *)
+| SKey (toks : list token) (obs : list str).
+     (* a map KEY (process name / env_cmds name) "<unique prefix><tokens>"; obs = every key of that map
+        that starts with the prefix: the one equal to the raw text first, then the others in order *)
 
 Definition seg_raw (g : seg) : str :=
-  match g with SLit s => s | STok t _ => print t | SRaw r _ => r end.
+  match g with SLit s => s | STok t _ => print t | SRaw r _ => r | SKey t _ => print t end.
 Definition seg_obs (g : seg) : str :=
-  match g with SLit s => s | STok _ o => o | SRaw _ o => o end.
+  match g with
+  | SLit s => s | STok _ o => o | SRaw _ o => o
+  | SKey _ [o] => o
+  | SKey _ _ => [0%N]          (* no key or several keys: a byte that never occurs in a file *)
+  end.
 Definition file_text (segs : list seg) : str := concat (map seg_raw segs).
 (* the same text with every generated scalar replaced by the value the loader returned for it *)
 Definition shape_text (segs : list seg) : str := concat (map seg_obs segs).
@@ -70,11 +77,20 @@ Definition model_ok (c : ocase) : bool :=
       launch_agrees (launch_env name num inh (global_env glob cmds) proc) (length cmds) wd real oe od
   end.
 
-(* the unchanged code: used only to classify a disagreement as one of the two listed findings *)
+(* the unchanged code: used only to classify a disagreement as one of the listed findings.
+   With expansion disabled the unchanged loader decodes the raw text ON TOP of the project decoded from the
+   expanded text, so a map entry whose key was changed by the expansion stays next to the raw one (F35). *)
+Definition seg_obs_orig (dis : bool) (mapping : str -> str) (g : seg) : str :=
+  match g with
+  | SKey toks ((o1 :: _ :: _) as obs) =>
+      if dis && list_eqb str_eqb obs (loaded_keys_orig dis mapping (print toks)) then o1 else [0%N]
+  | _ => seg_obs g
+  end.
 Definition model_orig_ok (c : ocase) : bool :=
   match c with
   | CLoad dis env segs err =>
-      negb err && str_eqb (load_text_sentinel dis (getenv env) (file_text segs)) (shape_text segs)
+      negb err && str_eqb (load_text_sentinel dis (getenv env) (file_text segs))
+                          (concat (map (seg_obs_orig dis (getenv env)) segs))
   | CLaunch name num inh glob cmds proc wd real oe od =>
       launch_agrees (launch_env_orig name num inh (global_env glob cmds) proc) (length cmds) wd real oe od
   end.
@@ -103,6 +119,8 @@ Definition holds_C17 (c : ocase) : bool :=
       forallb (fun g => match g with
                         | STok toks obs => wf_tokens toks &&
                                            str_eqb obs (if dis then print toks else denote (getenv env) toks)
+                        | SKey toks obs => wf_tokens toks &&
+                                           list_eqb str_eqb obs [if dis then print toks else denote (getenv env) toks]
                         | _ => true
                         end) segs
   | CLaunch name num inh glob cmds proc wd real oe od =>
